@@ -105,6 +105,95 @@ def _ring(draw):
     return {"k": "All", "id": draw(st.sampled_from(["Top", None])), "c": list(draw(st.permutations(kids)))}
 
 
+def _leaf(i, b=(0, 1)):
+    return {"k": "leaf", "id": i, "b": list(b)}
+
+
+@st.composite
+def coincidence(draw, tier):
+    """two DIFFERENT sub-propositions that get the same id, in different branches of an otherwise clean model: generated ids
+    that coincide because the id digest is taken over the concatenated child ids + value + sign (Any('ab','c') / Any('a','bc');
+    AtLeast(1,['a1']) / AtLeast(11,['a'])), or an explicit id that equals another sub-proposition's generated id. Also the
+    harmless variant (the same definition written twice), which must be accepted."""
+    fam = draw(st.integers(0, 4))
+    kind = draw(st.sampled_from(["Any", "All", "AtLeast"]))
+
+    def thr(children, v=None):
+        n = {"k": kind, "id": None, "c": children}
+        if kind == "AtLeast":
+            n["v"], n["s"] = (v if v is not None else 1), draw(st.sampled_from([1, None]))
+        return n
+    if fam == 0:
+        splits = draw(st.sampled_from([(["ab", "c"], ["a", "bc"]), (["a", "b", "c"], ["ab", "c"]), (["abc"], ["a", "bc"]), (["x", "yz"], ["xy", "z"]),
+                                       (["a", "b", "c"], ["a", "bc"])]))
+        x1, x2 = thr([_leaf(i) for i in splits[0]]), thr([_leaf(i) for i in splits[1]])
+        if kind == "All":       # All has value = number of children: keep the digests equal by using AtLeast with one value
+            v = draw(st.integers(1, 2))
+            x1 = {"k": "AtLeast", "v": v, "s": 1, "id": None, "c": x1["c"]}
+            x2 = {"k": "AtLeast", "v": v, "s": 1, "id": None, "c": x2["c"]}
+    elif fam == 1:
+        base = draw(st.sampled_from(["a", "x", "it"]))
+        d = draw(st.sampled_from([1, 2]))
+        x1 = {"k": "AtLeast", "v": d, "s": 1, "id": None, "c": [_leaf(base + "1")]}
+        x2 = {"k": "AtLeast", "v": 10 + d, "s": 1, "id": None, "c": [_leaf(base)]}
+    elif fam == 2:
+        x1 = thr([_leaf("x"), _leaf("y")])
+        x2 = {"k": draw(st.sampled_from(["All", "Any", "AtMost"])), "id": {"gen_of": x1}, "c": [_leaf("p"), _leaf("q")]}
+        if x2["k"] == "AtMost":
+            x2["v"] = 1
+    elif fam == 3:
+        # same children, same generated digest impossible with another value -> use an explicit id on both, other value/sign
+        x1 = {"k": "All", "id": "C", "c": [_leaf("a"), _leaf("b")]}
+        x2 = {"k": draw(st.sampled_from(["Any", "AtMost", "Xor"])), "id": "C", "c": [_leaf("a"), _leaf("b")]}
+        if x2["k"] == "AtMost":
+            x2["v"] = draw(st.integers(0, 2))
+    else:
+        x1 = thr([_leaf("a"), _leaf("bc")], v=draw(st.integers(1, 2)))
+        x2 = copy.deepcopy(x1)          # the harmless variant: one definition written twice
+    wraps = []
+    for j, x in enumerate((x1, x2)):
+        w = draw(st.integers(0, 3))
+        if w == 0:
+            wraps.append(x)
+        elif w == 1:
+            wraps.append({"k": draw(st.sampled_from(["Any", "All"])), "id": draw(st.sampled_from([None, "W%d" % j])), "c": [x, _leaf("u%d" % j)]})
+        elif w == 2:
+            wraps.append({"k": "Imply", "id": None, "c": [_leaf("u%d" % j), x]})
+        else:
+            wraps.append({"k": "Any", "id": "W%d" % j, "c": [{"k": "All", "id": None, "c": [x, _leaf("v%d" % j)]}, _leaf("u%d" % j)]})
+    kids = wraps + ([_leaf("t", (-1, 2))] if draw(st.booleans()) else [])
+    return {"model": {"k": draw(st.sampled_from(["All", "Any"])), "id": draw(st.sampled_from(["Top", None])), "c": list(draw(st.permutations(kids)))},
+            "twice": fam == 4}
+
+
+def _resolve(spec):
+    """explicit ids given as {"gen_of": node spec} become the generated id of that node"""
+    spec = copy.deepcopy(spec)
+    for n in oracle.spec_nodes(spec):
+        if isinstance(n.get("id"), dict):
+            n["id"] = str(build.node(n["id"]["gen_of"], []).id)
+    return spec
+
+
+def check_coincidence(case, ev):
+    case = dict(case, model=_resolve(case["model"]))
+    m = _build(case, ev)
+    if m is None:
+        return
+    errs = call(m.errors, what="errors()")
+    ok, why = oracle.well_defined(m)
+    if not errs and not ok:
+        raise Violation(f"errors() returns nothing but the model is not well-defined: {why}")
+    if case.get("twice") and ok and errs:
+        raise Violation(f"model that merely shares identical sub-propositions is rejected by errors(): {[str(e) for e in errs]}")
+    ids = {}
+    for x in oracle.walk(m):
+        if not oracle.is_leaf(x):
+            ids.setdefault(x.id, set()).add(id(x))
+    clash = any(len(v) >= 2 for v in ids.values())
+    ev.case(case, clash, ["accepted" if not errs else "rejected", "well_defined" if ok else "ill_defined", "id_clash" if clash else "no_clash"])
+
+
 def _build(case, ev):
     try:
         return build.model(case["model"])
@@ -207,6 +296,7 @@ def tree(draw, tier):
 def parts(tier):
     return [Part("class_twins", strategy=lambda t: S.class_twin_spec().map(lambda s_: {"model": s_}), check=check_complete, quick=(1, 300), thorough=(2, 3000)), Part("by_reference", strategy=lambda t: S.by_reference_spec().map(lambda s_: {"model": s_}), check=check_complete, quick=(1, 200), thorough=(2, 2000))] + [
         Part("adversarial", strategy=lambda t: adversarial(t), check=check_sound, quick=(6, 800), thorough=(12, 8000), fuzz=(2, 60000)),
+        Part("coincidence", strategy=lambda t: coincidence(t), check=check_coincidence, quick=(1, 400), thorough=(2, 4000)),
         Part("tree", strategy=lambda t: tree(t), check=check_complete, quick=(1, 600), thorough=(2, 4000)),
         Part("sharing", strategy=lambda t: S.model_spec(depth=3 if t == "quick" else 4, profile="small").map(lambda s: {"model": s}),
              check=check_complete, quick=(2, 600), thorough=(4, 4000)),
